@@ -57,6 +57,9 @@ type socket struct {
 	pingIntervalTimer atomic.Pointer[utils.Timer]
 
 	flushMu sync.Mutex
+	// guards the pair (writeBuffer, packetsFn): a callback and its packet are
+	// queued, and taken by flush, as one step
+	bufMu sync.Mutex
 }
 
 func (s *socket) Protocol() int {
@@ -533,12 +536,14 @@ func (s *socket) sendPacket(
 		// exports packetCreate event
 		s.Emit("packetCreate", packet)
 
+		s.bufMu.Lock()
 		s.writeBuffer.Push(packet)
 
 		// add send callback to object, if defined
 		if callback != nil {
 			s.packetsFn.Push(callback)
 		}
+		s.bufMu.Unlock()
 
 		s.flush()
 	}
@@ -550,11 +555,18 @@ func (s *socket) flush() {
 	defer s.flushMu.Unlock()
 
 	if s.ReadyState() != "closed" && s.Transport().Writable() {
-		if wbuf := s.writeBuffer.AllAndClear(); len(wbuf) > 0 {
+		s.bufMu.Lock()
+		wbuf := s.writeBuffer.AllAndClear()
+		var packetsFn []SendCallback
+		if len(wbuf) > 0 {
+			packetsFn = s.packetsFn.AllAndClear()
+		}
+		s.bufMu.Unlock()
+		if len(wbuf) > 0 {
 			socket_log.Debug("flushing buffer to transport")
 			s.Emit("flush", wbuf)
 			s.server.Emit("flush", s, wbuf)
-			if packetsFn := s.packetsFn.AllAndClear(); len(packetsFn) > 0 {
+			if len(packetsFn) > 0 {
 				s.sentCallbackFn.Push(packetsFn)
 			} else {
 				s.sentCallbackFn.Push(nil)
